@@ -25,11 +25,13 @@ feature by exactly that offset and changes no other reported quantity"):
 
 **Transposition** (2-D; "swaps the coordinate columns and changes no other reported quantity"):
 * `maxima_transpose`, `whereClose_dominated`, `exactKey_swap`;
-* `refine_transpose`   centroid components swap; mass, size², signal, raw mass equal; the ecc sums:
-                       `Σ cos2θ·px ↦ −Σ cos2θ·px`, `Σ sin2θ·px` equal, centre pixel equal, hence ecc
-                       equal — NEEDS the centre weight `centreCos = 0`;
-* `ecc_transpose_witness`   with any non-zero centre weight (the unrepaired `cosmask` has 1) the ecc
-                       numerator of a 3×3 neighbourhood changes under transposition;
+* `refine_transpose`   centroid components swap; mass, size², signal, raw mass equal (unconditional);
+* `refine_transpose_ecc`   the exact law of the ecc sums with the code's centre weight `centreCos = 1`:
+                       `(Σcos, Σsin, centre) ↦ (2·centre − Σcos, Σsin, centre)` — so the `ecc` clause of the
+                       property is FALSE of the code (`ecc_witness_code`, `ecc_witness_refineOne`,
+                       `ecc_transpose_witness` for every weight ≠ 0; KNOWN FINDING); it holds when the
+                       centre pixel is 0 (`refine_transpose_ecc_partial`) and would hold with centre
+                       weight 0 (`ecc_transpose_weight_zero`);
 * `bandpass_transpose`/`bandpass_permute_axes` are C10's.
 
 **batch**: `batch_is_concat`, `batch_rows_in_frame_order`, `batch_any_order_preserving_map`.
@@ -368,37 +370,49 @@ theorem rg2At_transpose (img : Image) (ry rx : Nat) (c : List Int) :
     rw [wsum_transpose img ry rx c (wX2 [ry, rx] 1) (wX2 [rx, ry] 0) (fun i j => wX2_swap0 ry rx i j),
       wsum_transpose img ry rx c (wX2 [ry, rx] 0) (wX2 [rx, ry] 1) (fun i j => wX2_swap1 ry rx i j)]
 
-theorem eccAt_transpose (img : Image) (ry rx : Nat) (c : List Int) :
-    eccAt (transImg img) (maskOffsets [rx, ry]) [rx, ry] (origin [rx, ry] (swapI c)) =
-      some (- wsum img (maskOffsets [ry, rx]) (origin [ry, rx] c) (wCos [ry, rx]),
+/-- the eccentricity sums with an arbitrary centre weight `w` for `cosmask` (`eccAt` is the case
+`w = centreCos`) -/
+def eccAtW (w : Rat) (img : Image) (mask : List (List Nat)) (radius : List Nat) (org : List Int) :
+    Option (Rat × Rat × Nat) :=
+  if radius.length = 2 then
+    some (wsum img mask org (wCosW w radius), wsum img mask org (wSin radius), img (addOff org radius))
+  else none
+
+theorem eccAtW_centreCos : eccAtW centreCos = eccAt := rfl
+
+/-- **the law of the eccentricity sums under transposition, any centre weight `w`:**
+`(Σcos, Σsin, centre) ↦ (−Σcos + 2·w·centre, Σsin, centre)`.  Every off-centre term of `Σ cos2θ·px`
+changes sign, the centre term `w·centre` does not. -/
+theorem eccAtW_transpose (w : Rat) (img : Image) (ry rx : Nat) (c : List Int) :
+    eccAtW w (transImg img) (maskOffsets [rx, ry]) [rx, ry] (origin [rx, ry] (swapI c)) =
+      some (- wsum img (maskOffsets [ry, rx]) (origin [ry, rx] c) (wCosW w [ry, rx])
+              + 2 * w * ((img (addOff (origin [ry, rx] c) [ry, rx]) : Nat) : Rat),
             wsum img (maskOffsets [ry, rx]) (origin [ry, rx] c) (wSin [ry, rx]),
             img (addOff (origin [ry, rx] c) [ry, rx])) := by
-  unfold eccAt
+  unfold eccAtW
   rw [if_pos (by rfl : [rx, ry].length = 2)]
-  rw [wsum_transpose img ry rx c (fun off => (-1) * wCos [ry, rx] off) (wCos [rx, ry])
-        (fun i j => by rw [wCos_swap]; ring),
-      wsum_const_mul,
+  rw [wsum_transpose img ry rx c
+        (fun off => (-1) * wCosW w [ry, rx] off + (if off = [ry, rx] then 2 * w else 0)) (wCosW w [rx, ry])
+        (fun i j => by rw [wCosW_swap]; ring),
+      wsum_add, wsum_const_mul, wsum_centre,
       wsum_transpose img ry rx c (wSin [ry, rx]) (wSin [rx, ry]) (fun i j => wSin_swap ry rx i j),
       pix_transpose]
   simp
 
 /-- **refine_transpose.**  Clause "transposing an integer image … swaps the coordinate columns and
-changes no other reported quantity", stage `refine_com`, 2-D.  `transImg img` is the transposed
-image; radius, shape and start pixel are exchanged with the axes.  Then: the mask centre and the
-position have their components exchanged; mass, signal and raw mass are equal; size² is equal
-(isotropic) or has its two per-axis entries exchanged; the eccentricity sums satisfy
-`Σ cos2θ·px ↦ −Σ cos2θ·px`, `Σ sin2θ·px` equal, centre pixel equal — so `ecc`, which depends on
-`(Σcos)² + (Σsin)²`, mass and centre pixel only, is equal (`ecc_sq_eq`).  This uses
-`centreCos = 0` (the repaired `cosmask`); with the unrepaired weight 1 it is false
-(`ecc_transpose_witness`). -/
+changes no other reported quantity", stage `refine_com`, 2-D, for every reported quantity EXCEPT
+`ecc`.  `transImg img` is the transposed image; radius, shape and start pixel are exchanged with
+the axes.  Then: the mask centre and the position have their components exchanged; mass, signal and
+raw mass are equal; size² is equal (isotropic) or has its two per-axis entries exchanged.
+Unconditional (all images, radii, shapes, thresholds, `max_iterations`, start pixels; the clip
+included).  For `ecc` see `refine_transpose_ecc` — the clause is FALSE of the code. -/
 theorem refine_transpose (thr : Rat) (img raw : Image) (ry rx sy sx : Nat) (maxIter : Nat)
     (start : List Int) :
     let R := refineOne thr img raw [ry, rx] [sy, sx] maxIter start
     let R' := refineOne thr (transImg img) (transImg raw) [rx, ry] [sx, sy] maxIter (swapI start)
     R'.centre = swapI R.centre ∧ R'.pos = swapQ R.pos ∧ R'.mass = R.mass ∧
     R'.signal = R.signal ∧ R'.rawMass = R.rawMass ∧
-    R'.rg2 = (if isotropic [ry, rx] then R.rg2 else swapQ R.rg2) ∧
-    ∃ a b cp, R.ecc = some (a, b, cp) ∧ R'.ecc = some (-a, b, cp) := by
+    R'.rg2 = (if isotropic [ry, rx] then R.rg2 else swapQ R.rg2) := by
   intro R R'
   have hc : R'.centre = swapI R.centre := lastCentre_transpose thr img ry rx sy sx _ start
   have e : R' = measure (transImg img) (transImg raw) (maskOffsets [rx, ry]) [rx, ry]
@@ -406,19 +420,61 @@ theorem refine_transpose (thr : Rat) (img raw : Image) (ry rx sy sx : Nat) (maxI
     show measure _ _ _ _ _ = _
     rw [show lastCentre thr (transImg img) (maskOffsets [rx, ry]) [rx, ry] [sx, sy]
           (fuelOf maxIter) (swapI start) = R'.centre from rfl, hc]
-  refine ⟨hc, ?_, ?_, ?_, ?_, ?_, ?_⟩
+  refine ⟨hc, ?_, ?_, ?_, ?_, ?_⟩
   · rw [e]; exact posAt_transpose img ry rx R.centre
   · rw [e]; exact massAt_transpose img ry rx R.centre
   · rw [e]; exact maskMax_transpose img ry rx R.centre
   · rw [e]; exact massAt_transpose raw ry rx R.centre
   · rw [e]; exact rg2At_transpose img ry rx R.centre
-  · refine ⟨wsum img (maskOffsets [ry, rx]) (origin [ry, rx] R.centre) (wCos [ry, rx]),
-      wsum img (maskOffsets [ry, rx]) (origin [ry, rx] R.centre) (wSin [ry, rx]),
-      img (addOff (origin [ry, rx] R.centre) [ry, rx]), ?_, ?_⟩
-    · show eccAt img (maskOffsets [ry, rx]) [ry, rx] (origin [ry, rx] R.centre) = _
-      unfold eccAt
-      rw [if_pos (by rfl : [ry, rx].length = 2)]
-    · rw [e]; exact eccAt_transpose img ry rx R.centre
+
+/-- **refine_transpose_ecc.**  What the model (= the code: `centreCos = 1`) really does to the
+eccentricity sums: if the image reports `(a, b, cp)` — `a = Σ cos2θ·px`, `b = Σ sin2θ·px`, `cp` the
+centre pixel of the reported mask — the transposed image reports
+`(−a + 2·centreCos·cp, b, cp) = (2·cp − a, b, cp)`.  `ecc = √(a² + b²)/(mass − cp + 1e-6)` is
+therefore NOT invariant unless `a·cp = cp²`… in particular not on `ecc_witness_code`. -/
+theorem refine_transpose_ecc (thr : Rat) (img raw : Image) (ry rx sy sx : Nat) (maxIter : Nat)
+    (start : List Int) :
+    let R := refineOne thr img raw [ry, rx] [sy, sx] maxIter start
+    let R' := refineOne thr (transImg img) (transImg raw) [rx, ry] [sx, sy] maxIter (swapI start)
+    ∃ a b cp, R.ecc = some (a, b, cp) ∧
+      R'.ecc = some (-a + 2 * centreCos * (cp : Rat), b, cp) := by
+  intro R R'
+  have hc : R'.centre = swapI R.centre := lastCentre_transpose thr img ry rx sy sx _ start
+  refine ⟨wsum img (maskOffsets [ry, rx]) (origin [ry, rx] R.centre) (wCos [ry, rx]),
+    wsum img (maskOffsets [ry, rx]) (origin [ry, rx] R.centre) (wSin [ry, rx]),
+    img (addOff (origin [ry, rx] R.centre) [ry, rx]), ?_, ?_⟩
+  · show eccAt img (maskOffsets [ry, rx]) [ry, rx] (origin [ry, rx] R.centre) = _
+    unfold eccAt
+    rw [if_pos (by rfl : [ry, rx].length = 2)]
+  · show eccAt (transImg img) (maskOffsets [rx, ry]) [rx, ry] (origin [rx, ry] R'.centre) = _
+    rw [hc, ← eccAtW_centreCos, eccAtW_transpose, wCosW_centreCos]
+
+/-- **refine_transpose_ecc_partial.**  The `ecc` clause of the property under the explicit,
+decidable hypothesis that excludes the defect: the centre pixel of the reported mask is 0
+(`R.ecc = some (a, b, 0)`).  Then the transposed image reports `(−a, b, 0)`, and `ecc` — a function
+of `a² + b²`, mass and centre pixel (`ecc_sq_eq`) — is the same. -/
+theorem refine_transpose_ecc_partial (thr : Rat) (img raw : Image) (ry rx sy sx : Nat) (maxIter : Nat)
+    (start : List Int) (a b : Rat)
+    (h0 : (refineOne thr img raw [ry, rx] [sy, sx] maxIter start).ecc = some (a, b, 0)) :
+    (refineOne thr (transImg img) (transImg raw) [rx, ry] [sx, sy] maxIter (swapI start)).ecc =
+      some (-a, b, 0) := by
+  obtain ⟨a', b', cp, h1, h2⟩ := refine_transpose_ecc thr img raw ry rx sy sx maxIter start
+  rw [h0] at h1
+  injection h1 with h1
+  injection h1 with ha h1
+  injection h1 with hb hcp
+  subst ha; subst hb; subst hcp
+  rw [h2]; simp
+
+/-- with the centre weight 0 (the repaired `cosmask` of repo-fixes/C09-cosmask-centre.patch, NOT
+applied) the eccentricity sums of the mask at any centre `c` transform as the property needs,
+unconditionally: `(a, b, cp) ↦ (−a, b, cp)` -/
+theorem ecc_transpose_weight_zero (img : Image) (ry rx : Nat) (c : List Int) :
+    ∃ a b cp, eccAtW 0 img (maskOffsets [ry, rx]) [ry, rx] (origin [ry, rx] c) = some (a, b, cp) ∧
+      eccAtW 0 (transImg img) (maskOffsets [rx, ry]) [rx, ry] (origin [rx, ry] (swapI c)) =
+        some (-a, b, cp) := by
+  refine ⟨_, _, _, (if_pos (by rfl : [ry, rx].length = 2)), ?_⟩
+  rw [eccAtW_transpose]; simp
 
 /-- the quantity `ecc` is computed from — `((Σcos)² + (Σsin)²)`, with mass and centre pixel — is
 the same for `(a, b)` and `(−a, b)` -/
@@ -429,15 +485,7 @@ read in both directions -/
 theorem transImg_transImg (img : Image) (a b : Int) : transImg (transImg img) [a, b] = img [a, b] := by
   simp [transImg]
 
-/-! ### the unrepaired centre weight breaks it -/
-
-/-- `cosmask` with an arbitrary weight `w` for the centre pixel (`wCos` is the case `w = centreCos`) -/
-def wCosW (w : Rat) (radius : List Nat) (off : List Nat) : Rat :=
-  let y : Int := rel (radius.getD 0 0) (off.getD 0 0)
-  let x : Int := rel (radius.getD 1 0) (off.getD 1 0)
-  if x = 0 ∧ y = 0 then w else ((x * x - y * y : Int) : Rat) / ((x * x + y * y : Int) : Rat)
-
-theorem wCosW_centreCos : wCosW centreCos = wCos := rfl
+/-! ### the `ecc` clause is false of the code -/
 
 /-- a 3×3 neighbourhood: centre pixel 2, its right neighbour 1 (mask radius 1 = the 5-pixel plus) -/
 def witImg : Image := fun p => if p = [1, 1] then 2 else if p = [1, 2] then 1 else 0
@@ -459,11 +507,9 @@ theorem eccNum_witT (w : Rat) : eccNum w (transImg witImg) = (-1 + 2 * w) * (-1 
     List.range_succ]
   ring
 
-/-- **ecc_transpose_witness.**  With ANY non-zero weight for the centre pixel of `cosmask` — the
-unrepaired `masks.cosmask` has `cos(2·atan2(0,0)) = 1` — the eccentricity numerator of this 3×3
-neighbourhood differs from that of its transpose (9 vs 1 for `w = 1`), while mass (3) and centre
-pixel (2), hence the denominator, are the same: `ecc` changes under transposition.  Replayed on
-the real code by `corpus/C09/ecc-transpose-witness.json`. -/
+/-- **ecc_transpose_witness.**  With ANY non-zero weight for the centre pixel of `cosmask` the
+eccentricity numerator of this 3×3 neighbourhood differs from that of its transpose, while mass
+(3) and centre pixel (2), hence the denominator, are the same: `ecc` changes under transposition. -/
 theorem ecc_transpose_witness (w : Rat) (hw : w ≠ 0) :
     eccNum w witImg ≠ eccNum w (transImg witImg) := by
   rw [eccNum_wit, eccNum_witT]
@@ -471,12 +517,32 @@ theorem ecc_transpose_witness (w : Rat) (hw : w ≠ 0) :
   apply hw
   linarith
 
-theorem ecc_witness_old_weight : eccNum 1 witImg = 9 ∧ eccNum 1 (transImg witImg) = 1 := by
-  rw [eccNum_wit, eccNum_witT]; norm_num
+/-- **ecc_witness_code.**  … instantiated at the code's weight `centreCos = 1`
+(`cos(2·atan2(0,0))`): numerator 9 for the image, 1 for its transpose.  The `ecc` clause of the
+property is FALSE of the model, and of the code: `corpus/C09/ecc-transpose-witness.json` replays
+this neighbourhood through `refine_com_arr` on every run (known finding
+`{"what": "ecc-changes-under-transposition"}`). -/
+theorem ecc_witness_code :
+    eccNum centreCos witImg = 9 ∧ eccNum centreCos (transImg witImg) = 1 ∧
+    eccNum centreCos witImg ≠ eccNum centreCos (transImg witImg) := by
+  rw [eccNum_wit, eccNum_witT]; simp [centreCos]; norm_num
 
-/-- … and with the repaired weight the witness is invariant, as `refine_transpose` says -/
-theorem ecc_witness_repaired : eccNum centreCos witImg = eccNum centreCos (transImg witImg) := by
-  rw [eccNum_wit, eccNum_witT]; simp [centreCos]
+/-- the same witness through the function the driver runs: the 5×5 image of the corpus entry
+(centre pixel 2 at (2,2), right neighbour 1), radius 1, one iteration.  The model reports the sums
+`(3, 0, 2)` for the image and `(1, 0, 2)` for its transpose — `refine_transpose_ecc`'s `2·cp − a` —
+so `a² + b²` is 9 vs 1 with equal mass and centre pixel. -/
+def witImg5 : Image := fun p => if p = [2, 2] then 2 else if p = [2, 3] then 1 else 0
+theorem ecc_witness_refineOne :
+    (refineOne (3/5) witImg5 witImg5 [1, 1] [5, 5] 1 [2, 2]).ecc = some (3, 0, 2) ∧
+    (refineOne (3/5) (transImg witImg5) (transImg witImg5) [1, 1] [5, 5] 1 (swapI [2, 2])).ecc
+      = some (1, 0, 2) ∧
+    (refineOne (3/5) witImg5 witImg5 [1, 1] [5, 5] 1 [2, 2]).mass =
+      (refineOne (3/5) (transImg witImg5) (transImg witImg5) [1, 1] [5, 5] 1 (swapI [2, 2])).mass := by
+  decide +kernel
+
+/-- with the weight 0 of the (unapplied) repair the witness is invariant -/
+theorem ecc_witness_repaired : eccNum 0 witImg = eccNum 0 (transImg witImg) := by
+  rw [eccNum_wit, eccNum_witT]; norm_num
 
 /-- non-vacuity of `refine_transpose`: a bright pixel at (2,3), a dim one at (2,2); the mask moves
 once; in the transposed image it moves along the other axis -/
@@ -485,6 +551,23 @@ example : (refineOne (3/5) exImg exImg [1, 1] [5, 5] 10 [2, 2]).centre = [2, 3] 
   decide +kernel
 example : (refineOne (3/5) (transImg exImg) (transImg exImg) [1, 1] [5, 5] 10
     (swapI [2, 2])).centre = [3, 2] := by decide +kernel
+/-- non-vacuity of `refine_transpose_ecc_partial`: in this image the mask ends at (2,3)… whose
+centre pixel is 9, so the hypothesis fails; with a single iteration the mask stays at (2,2) — centre
+pixel 1 ≠ 0 either; a feature whose reported mask centre is dark: -/
+def exDark : Image := fun p => if p = [2, 3] then 4 else if p = [2, 1] then 4 else if p = [1, 2] then 1 else 0
+example : (refineOne (3/5) exDark exDark [1, 1] [5, 5] 10 [2, 2]).ecc = some (7, 0, 0) := by
+  decide +kernel
+example : (refineOne (3/5) (transImg exDark) (transImg exDark) [1, 1] [5, 5] 10 (swapI [2, 2])).ecc
+    = some (-7, 0, 0) := by decide +kernel
+
+-- FULL (FALSE of the code, not provable): refine_transpose_ecc_full —
+--   ∀ img …, R.ecc = some (a, b, cp) → R'.ecc = some (−a, b, cp)        (hence `ecc` equal)
+--   Refuted by `ecc_witness_code` / `ecc_witness_refineOne`: `masks.cosmask` gives the centre pixel
+--   the weight cos(2·atan2(0,0)) = 1, so R'.ecc = some (2·cp − a, b, cp) (`refine_transpose_ecc`).
+--   Proved instead: the exact law `refine_transpose_ecc`, the clause under "centre pixel = 0"
+--   (`refine_transpose_ecc_partial`) and for centre weight 0 (`ecc_transpose_weight_zero`).
+--   Known finding {"what": "ecc-changes-under-transposition"}; the repair
+--   repo-fixes/C09-cosmask-centre.patch is not applied (it breaks the pinned test_characterize).
 
 end transpose
 
@@ -669,7 +752,8 @@ end batch
 --   for a 2-D integer image and `P.preprocess = false`:
 --     Locate.locateModel (P with per-axis lists reversed) [W, H] (transpose raw) is, up to the order
 --     of the rows, (Locate.locateModel P [H, W] raw) with `centre`, `pos` (and per-axis `rg2`)
---     components exchanged, `ecc = (a, b, cp) ↦ (−a, b, cp)`, all other fields equal.
+--     components exchanged, `ecc = (a, b, cp) ↦ (2·cp − a, b, cp)` (`refine_transpose_ecc`; the
+--     property wants `(−a, b, cp)`, FALSE of the code), all other fields equal.
 --   From `maxima_transpose` and `refine_transpose`; missing: `Refine.ofArray` of a transposed array
 --   as `transImg`, and the statement "up to row order" for the two `np.where` orders.
 -/
